@@ -31,6 +31,7 @@ ASSUMPTIONS = [
     "single CPU device: pmap runs over one device (the device axis has length 1)",
     "same float tolerance and degenerate-evaluation exclusion as C07",
 ]
+CLEAR_CACHES_EVERY = 3
 CONFIG = {
     "quick": {"examples": 32, "shards": 16, "shrink_s": 90, "time_budget_s": 280},
     "thorough": {"examples": 432, "shards": 16, "shrink_s": 240, "time_budget_s": 1500},
